@@ -687,8 +687,10 @@ func sanitizeServerHostNamespace(server *networking.Server, namespace string) *n
 				server.Hosts[i] = namespace + "/" + parts[1] // format: %s/%s
 			} else if parts[0] == "*" {
 				if parts[1] == "*" {
+					// "*" subsumes every other host of the server. Stop here: the loop ranges over the
+					// original host list, so indexing the one-element list any further would panic.
 					server.Hosts = []string{"*"}
-					continue
+					return server
 				}
 				server.Hosts[i] = parts[1]
 			}
